@@ -1065,14 +1065,15 @@ class SQLObject(with_metaclass(declarative.DeclarativeMeta, object)):
             func(self)
 
     def expire(self):
-        if self.sqlmeta.expired:
-            return
         self._SO_writeLock.acquire()
         try:
-            if self.sqlmeta.expired:
-                return
+            # An expired object may have got values again (by
+            # assignment), so the flag is no reason to skip the clean-up.
             for column in self.sqlmeta.columnList:
-                delattr(self, instanceName(column.name))
+                try:
+                    delattr(self, instanceName(column.name))
+                except AttributeError:
+                    pass
             self.sqlmeta.expired = True
             self._connection.cache.expire(self.id, self.__class__)
             self._SO_createValues = {}
